@@ -1236,7 +1236,7 @@ func verifC09() {
 		os.MkdirAll(filepath.Join(scratch, "claim"), 0o700)
 		// more workers than CPUs: each worker is a strictly sequential chain of short-lived processes, and on a box
 		// shared with other checks the extra workers keep the run from being starved
-		c2, samples, ok2 := run.SpawnShards(max(1, min(24, len(scns))))
+		c2, samples, _ := run.SpawnShards(max(1, min(24, len(scns))))
 		for k, v := range c1 {
 			c2[k] += v
 		}
@@ -1250,7 +1250,7 @@ func verifC09() {
 		c2["scenarios_planned"] = int64(len(scns))
 		run.Coverage["wall_s_crash_free_phase"] = recordWall
 		run.Coverage["wall_s_fault_phase"] = time.Since(t0).Seconds() - recordWall
-		c09Report(run, parts, done, c2, samples, ok1 && ok2 && len(done) == len(scns))
+		c09Report(run, parts, done, c2, samples, ok1 && len(done) == len(scns))
 		return
 	}
 	c09Pin(shard)
@@ -1286,12 +1286,7 @@ func verifC09() {
 		// is busy with something else does not hold the others up; which worker runs a scenario has no influence on it
 		for i := range scns {
 			if run.TimeUp() {
-				// capped: the run is incomplete only if a scenario is left that nobody has taken
-				if _, err := os.Stat(filepath.Join(scratch, "claim", strconv.Itoa(i))); err != nil {
-					complete = false
-					break
-				}
-				continue
+				break // capped; the parent sees which scenarios have been run (done#i) and sets exhaustive accordingly
 			}
 			f, err := os.OpenFile(filepath.Join(scratch, "claim", strconv.Itoa(i)), os.O_CREATE|os.O_EXCL|os.O_WRONLY, 0o600)
 			if err != nil {
